@@ -29,13 +29,13 @@ var weights = map[string]int{"encrypt": 6, "decrypt": 8, "open": 1, "close": 2, 
 
 func TestWorld(t *testing.T) {
 	kit.Steps(kit.Pick(40, 60))
-	kit.Check(t, 300, 24000, func(t *rapid.T) { runHistory(t, false) })
+	kit.Check(t, 1500, 48000, func(t *rapid.T) { runHistory(t, false) })
 }
 
 // TestWorldReal uses the real memguard factory behind the tracker.
 func TestWorldReal(t *testing.T) {
 	kit.Steps(30)
-	kit.Check(t, 40, 1600, func(t *rapid.T) { runHistory(t, true) })
+	kit.Check(t, 100, 3200, func(t *rapid.T) { runHistory(t, true) })
 }
 
 func runHistory(t *rapid.T, real bool) {
